@@ -463,6 +463,10 @@ def check_highlevel_setter(ctx, model, cov):
             f.write("#!/bin/sh\necho 'fake-term||||77||||88_sess'\n")
         os.chmod(os.path.join(bindir, "tmux"), 0o755)
         os.environ["PATH"] = bindir + ":" + os.environ.get("PATH", "")
+        from PIL import Image
+        img_path = os.path.join(work, "hls.png")
+        Image.new("RGB", (5, 4), (9, 8, 7)).save(img_path)
+        img_mem = Image.new("RGB", (3, 3), (1, 2, 3))
         res = []
         for k, c in enumerate(plan):
             out = common.RecStream()
@@ -489,7 +493,11 @@ def check_highlevel_setter(ctx, model, cov):
                         os.environ["TERM"] = "xterm-256color"
                 t.num_tmux_layers = c["n"]
                 t.term.send_command(gc.DeleteCommand(image_id=5, what=gc.WhatToDelete.IMAGE_OR_PLACEMENT_BY_ID))
-                res.append(["OK", t.num_tmux_layers, b"".join(bytes(w) for w in out.writes).hex()])
+                # and what the high-level routes put on the stream themselves: an inline upload of an image file, of an
+                # in-memory image, a file-name upload — every write must be wrapped like the command above
+                t.upload_method = ["direct", "file", "direct"][k % 3]
+                t.upload(img_path if k % 2 else img_mem, force_upload=True)
+                res.append(["OK", t.num_tmux_layers, ",".join(bytes(w).hex() for w in out.writes if w)])
             except Exception as e:  # noqa
                 res.append(["EXC", type(e).__name__ + ": " + str(e)[:100], ""])
         return res
@@ -499,14 +507,22 @@ def check_highlevel_setter(ctx, model, cov):
         ctx.corr_breaks.append({"what": "high-level setter runs failed in the pty sandbox", "error": {k: v for k, v in r.items() if k != "tty"}})
         return
     ok = [(c, res) for c, res in zip(plan, r["ok"]) if res[0] == "OK"]
-    reps = model.batch([f"c11.spec_unwrapn {c['n']} {res[2]}" for c, res in ok]) if ok else []
-    for (c, res), rep in zip(ok, reps):
+    flat = [(i, w) for i, (c, res) in enumerate(ok) for w in res[2].split(",") if w]
+    flat_reps = model.batch([f"c11.spec_unwrapn {ok[i][0]['n']} {w}" for i, w in flat]) if flat else []
+    worst = {}
+    for (i, w), rep in zip(flat, flat_reps):
+        inner_ = None if rep in ("NONE", "") else bytes.fromhex(rep)
+        good = inner_ is not None and inner_.startswith(b"\x1b_G") and b"\x1bP" not in inner_
+        if not good and i not in worst:
+            worst[i] = rep
+    for i, (c, res) in enumerate(ok):
+        rep = worst.get(i, "1b5f47")
         cov.add(dict(c, site="TupimageTerminal.num_tmux_layers setter"), klass=f"highlevel-setter/{c['how']}")
         inner = None if rep in ("NONE", "") else bytes.fromhex(rep)
-        if res[1] != c["n"] or inner is None or not inner.startswith(b"\x1b_G") or b"\x1bP" in inner:
+        if res[1] != c["n"] or i in worst:
             ctx.violations.append({"signature": {"class": "configured-layers-lost", "site": "TupimageTerminal.num_tmux_layers setter", "how": c["how"]},
-                                   "what": f"terminal built with {c['a']} layer(s), then {c['how']} -> {c['b']}, then `t.num_tmux_layers = {c['n']}`: it reports {res[1]} and its command "
-                                           f"{'does not unwrap ' + str(c['n']) + ' times' if inner is None else 'unwraps to ' + repr(inner[:40])}",
+                                   "what": f"terminal built with {c['a']} layer(s), then {c['how']} -> {c['b']}, then `t.num_tmux_layers = {c['n']}`, a delete command and an upload: it reports {res[1]} and "
+                                           f"one of its writes {'does not unwrap ' + str(c['n']) + ' times' if inner is None else 'unwraps to ' + repr(inner[:40])}",
                                    "case": {"kind": "highlevel_setter", **c}})
             break
     for c, res in zip(plan, r["ok"]):
